@@ -69,8 +69,8 @@ changes, asked for changes of a different kind that show only for rare inputs.  
 the checkout overridden to the changed tree; when the target check stayed silent all other checks were run.  Kept under `seeded/<name>/`
 (patch.diff, demonstration, meta.json).  After strengthening, every change is caught by the check of the property it was written against, with a
 concrete failing input, except R07_n3, which lies outside its property's domain, and S09_n2, which no search can trigger; both are
-caught by a mechanism obligation (reported as no-failing-input-found).  Of the 60 changes of rounds 3 and 4, 27 were missed by their
-target check on the first run and 11 by all twenty checks: every one led to a new generic input family or mechanism obligation.  The notes
+caught by a mechanism obligation (reported as no-failing-input-found).  Of the 60 changes of rounds 3 and 4, 26 were missed by their
+target check on the first run and 12 by all twenty checks: every one led to a new generic input family or mechanism obligation.  The notes
 say what the first run missed and what was added (the added streams are generic - families of inputs, not the seeded input itself).
 
 | change | what was changed | needs | caught by | first evidence |
